@@ -24,6 +24,7 @@ CABS = z3.Function('cabs', z3.RealSort(), z3.RealSort(), z3.RealSort())
 CARG = z3.Function('carg', z3.RealSort(), z3.RealSort(), z3.RealSort())
 EXP = z3.Function('exp', z3.RealSort(), z3.RealSort())
 LOG10 = z3.Function('log10', z3.RealSort(), z3.RealSort())
+ROUND = z3.Function('round', z3.RealSort(), z3.IntSort())
 
 GLOBAL_AXIOMS = [
     PI > z3.RealVal('3.14159'), PI < z3.RealVal('3.1416'),
@@ -184,10 +185,13 @@ def sym_round(x, decimals=0):
         raise OutOfSubset('round of complex')
     if x.is_int:
         return x
-    half = x.re + z3.RealVal('1/2')
-    f = z3.ToInt(half)
-    r = z3.If(z3.And(z3.ToReal(f) == half, f % 2 != 0), f - 1, f)
-    return SNum(z3.ToReal(r), np=True)
+    t = z3.simplify(x.rez())
+    r = ROUND(t)
+    rr = z3.ToReal(r)
+    half = z3.RealVal('1/2')
+    CTX.path.assume(z3.And(rr - half <= t, t <= rr + half,
+                           z3.Implies(t == rr + half, r % 2 == 0), z3.Implies(t == rr - half, r % 2 == 0)))
+    return SNum(rr, np=True)
 
 
 def is_finite(x):
